@@ -235,6 +235,8 @@ def py_eq(a, b):
         return num_cmp('Eq', a, b)
     if ka == 'str' and kb == 'str':
         return a.t == b.t
+    if ka == 'meta' and kb == 'meta':
+        return a.t == b.t            # type objects: compared by their tag
     if ka == 'none' and kb == 'none':
         return z3.BoolVal(True)
     if ka == 'none' or kb == 'none':
